@@ -232,11 +232,17 @@ fn replay(path: &str) -> i32 {
 pub fn run(args: &[String]) -> i32 {
     quiet_panics();
     if let Some(p) = arg_val(args, "--replay") { return replay(&p); }
+    if let Some(p) = arg_val(args, "--ir") {
+        let src = std::fs::read_to_string(&p).unwrap();
+        let g = gen_globals(&mut Rng::new(1));
+        match compile_with_ir(&[("ns0".to_string(), src)], &g) { Ok((_, ir)) => println!("{}", ir), Err(e) => println!("ERR {}", e) }
+        return 0;
+    }
     let seed = arg_u64(args, "--seed", 1);
     let n = arg_u64(args, "--n", 600) as usize;
     let depth = arg_u64(args, "--depth", 4) as u32;
     let out = arg_val(args, "--out").expect("--out");
-    let prelude = "From Coq Require Import List NArith ZArith Bool.\nFrom YV Require Import Cond.Syntax Cond.Sem Cond.RuleSet Cond.Check.\nImport ListNotations.\nOpen Scope Z_scope.\n";
+    let prelude = "From Coq Require Import List NArith ZArith Bool.\nFrom YV Require Import Cond.Syntax Cond.Sem Cond.RuleSet Cond.IrTree Cond.Check.\nImport ListNotations.\nOpen Scope Z_scope.\n";
     let mut shards = Shards::new(Path::new(&out), prelude, 100);
     let mut rng = Rng::new(seed);
     let mut stats = Stats::default();
@@ -259,7 +265,7 @@ pub fn run(args: &[String]) -> i32 {
         let consts = case.rules.iter().filter(|r| is_constant(&r.cond)).count() as u64;
         if case.stream == Stream::Main && consts > 0 && (n_const + consts) * 100 > 15 * (n_conds + case.rules.len() as u64 + 20) { stats.inc("regenerated_constant_condition"); continue; }
         let sources = sources_of(&case.rules, case.per_rule);
-        let outcome = run_impl(&sources, &case.compile_globals, &case.globals, &case.data);
+        let (outcome, ir_text) = run_impl_ir(&sources, &case.compile_globals, &case.globals, &case.data);
         let src = full_source(&case.rules);
         let (all, public) = match outcome {
             Outcome::Rejected(e) => { stats.inc("rejected_by_compiler"); if rejected.len() < 5 { rejected.push(format!("{}\n{}", e, src)); } continue; }
@@ -273,6 +279,17 @@ pub fn run(args: &[String]) -> i32 {
             other => { stats.inc("warmup_run_failed"); eprintln!("c02: warm-up run failed: {:?}", other); (all.clone(), public.clone()) }
         };
         if warm_all != all { stats.inc("verdicts_change_when_search_is_forced"); }
+        // the IR the compiler built for every rule (Compiler::set_ir_writer), in rule order
+        let irs: Vec<IrNode> = match parse_ir(&ir_text) {
+            Ok(v) => {
+                let mut by_rule: Vec<Option<IrNode>> = vec![None; case.rules.len()];
+                for (name, n) in v { if let Some(i) = rule_index(&name) { if i < by_rule.len() { by_rule[i] = Some(n); } } }
+                if by_rule.iter().any(|x| x.is_none()) { eprintln!("c02: IR dump lacks a rule:\n{}", ir_text); return 2; }
+                by_rule.into_iter().map(|x| x.unwrap()).collect()
+            }
+            Err(e) => { eprintln!("c02: cannot read the IR dump ({}):\n{}\n{}", e, src, ir_text); return 2; }
+        };
+        stats.add("ir_nodes_compared", irs.iter().map(|n| n.size() as u64).sum());
         n_const += consts; n_conds += case.rules.len() as u64;
         stats.inc("rule_sets"); stats.add("rules", case.rules.len() as u64); stats.add("constant_conditions", consts);
         stats.inc(&format!("stream_{}", case.stream.name()));
@@ -293,10 +310,10 @@ pub fn run(args: &[String]) -> i32 {
         }
         for f in feat { if !f.is_empty() { stats.inc(&format!("uses_{}", f)); } }
         let nl = |v: &Vec<usize>| coq_list(v, |i| format!("{}%nat", i));
-        let coq = format!("mkCase {} {} {} {} {} {} {}", coq_list(&case.data, |b| format!("{}", b)), coq_list(&case.globals, gv_coq),
-            coq_list(&case.rules, rule_coq), nl(&all), nl(&public), nl(&warm_all), nl(&warm_pub));
-        let replay = format!("{{\"index\":{},\"stream\":{},\"source\":{},\"data_hex\":\"{}\",\"globals\":{},\"compile_globals\":{},\"observed_all\":{:?},\"observed_pub\":{:?},\"observed_with_forced_search\":{:?},\"coq\":{}}}",
-            shards.total, json_str(case.stream.name()), json_str(&src), hex(&case.data), gv_json(&case.globals), gv_json(&case.compile_globals), all, public, warm_all, json_str(&coq));
+        let coq = format!("mkCase {} {} {} {} {} {} {} {}", coq_list(&case.data, |b| format!("{}", b)), coq_list(&case.globals, gv_coq),
+            coq_list(&case.rules, rule_coq), nl(&all), nl(&public), nl(&warm_all), nl(&warm_pub), coq_list(&irs, |n| n.to_coq()));
+        let replay = format!("{{\"index\":{},\"stream\":{},\"source\":{},\"data_hex\":\"{}\",\"globals\":{},\"compile_globals\":{},\"observed_all\":{:?},\"observed_pub\":{:?},\"observed_with_forced_search\":{:?},\"ir_dump\":{},\"coq\":{}}}",
+            shards.total, json_str(case.stream.name()), json_str(&src), hex(&case.data), gv_json(&case.globals), gv_json(&case.compile_globals), all, public, warm_all, json_str(&ir_text), json_str(&coq));
         if samples.len() < 3 && case.rules.len() >= 2 && case.stream == Stream::Main { samples.push(format!("{{\"source\":{},\"data_hex\":\"{}\",\"matching\":{:?}}}", json_str(&src), hex(&case.data), all)); }
         shards.push(coq, replay);
     }
